@@ -4,6 +4,7 @@ import (
 	"fmt"
 	"go/token"
 	"go/types"
+	"sort"
 	"strings"
 
 	"golang.org/x/tools/go/ssa"
@@ -486,8 +487,17 @@ func c25Location(r *core.Report, p *core.Prog, need map[string]*ssa.Function, it
 		}
 	}
 	// (c) Remove / RemoveX
-	for _, name := range []string{"Remove", "RemoveX"} {
-		fn := need["P."+name]
+	// the carriers: every function of the package that calls removeItem (Remove and RemoveX
+	// themselves, or a helper they share); Remove/RemoveX must reach one
+	var rmCarriers []*ssa.Function
+	for _, f := range p.FuncsIn(pkgPart) {
+		if f.Blocks != nil && f != need["P.removeItem"] && len(findCallsTo(f, need["P.removeItem"])) > 0 {
+			rmCarriers = append(rmCarriers, f)
+		}
+	}
+	sort.Slice(rmCarriers, func(i, j int) bool { return rmCarriers[i].Name() < rmCarriers[j].Name() })
+	for _, fn := range rmCarriers {
+		name := fn.Name()
 		for i, c := range findCallsTo(fn, need["P.removeItem"]) {
 			idArg := c.Call.Args[2]
 			isRm := func(x ssa.Instruction) bool {
@@ -525,7 +535,14 @@ func c25Location(r *core.Report, p *core.Prog, need map[string]*ssa.Function, it
 			}
 			r.Check(bad == "" && okErr, "C25.location", fmt.Sprintf("%s:location-removed#%d", name, i+1), p.Pos(c.Pos()), "removeItemLoc(id) follows a successful removeItem on every success path "+bad)
 		}
-		r.Floor("C25.location", name+" removeItem sites", len(findCallsTo(fn, need["P.removeItem"])), 1)
+	}
+	for _, name := range []string{"Remove", "RemoveX"} {
+		ls := LiftCalls(need["P."+name], func(c *ssa.CallCommon) bool { return core.StaticCallee(c) == need["P.removeItem"] }, 1)
+		okL := len(ls) > 0
+		for _, l := range ls {
+			okL = okL && l.ErrFails()
+		}
+		r.Check(okL, "C25.location", name+":removes-through-removeItem", p.Pos(need["P."+name].Pos()), fmt.Sprintf("%d removeItem sites (directly or in a helper whose failure fails %s)", len(ls), name))
 	}
 	// (d) loadLastFromPrev
 	{
@@ -635,6 +652,26 @@ func c25Lookup(r *core.Report, p *core.Prog, need map[string]*ssa.Function, last
 			}
 			// Add / AddX: the tail is searched by p.add afterwards
 			adds := findCallsTo(fn, need["P.add"])
+			if len(adds) == 0 {
+				// a helper for items outside the tail: judged where it is called — every call
+				// site lies behind the tail's find having missed
+				var sites []*ssa.Call
+				for _, g := range p.FuncsIn(pkgPart) {
+					if g.Blocks != nil && g != fn {
+						sites = append(sites, findCallsTo(g, fn)...)
+					}
+				}
+				okH := len(sites) > 0
+				for _, cs := range sites {
+					if !missFact(cs.Block(), find, true, 2) {
+						okH = false
+					}
+				}
+				if okH {
+					r.Pass("C25.lookup-order", key, p.Pos(c.Pos()), fmt.Sprintf("helper called at %d sites, each after p.Last.find(id) missed", len(sites)))
+					continue
+				}
+			}
 			okA := len(adds) > 0
 			for _, a := range adds {
 				if !missFact(a.Block(), gipi, false, 1) {
@@ -754,6 +791,47 @@ func c25Tail(r *core.Report, p *core.Prog, need map[string]*ssa.Function, lastF,
 		if !r.Check(len(removals) > 0, "C25.tail", name+":tail-removal", p.Pos(fn.Pos()), "the function shortens the tail") {
 			continue
 		}
+		// tailKnownNonEmpty: Last.length() > 0 holds at b
+		tailKnownNonEmpty := func(b *ssa.BasicBlock) bool {
+			for _, f := range CmpFacts(b) {
+				if c, ok := f.X.(*ssa.Call); ok && c.Common().StaticCallee() == length && isLast(c.Call.Args[0]) {
+					if z, isC := core.ConstInt(f.Y); isC && ((z == 0 && (f.Op == token.GTR || f.Op == token.NEQ)) || (z == 1 && f.Op == token.GEQ)) {
+						return true
+					}
+				}
+			}
+			return false
+		}
+		// refillHelper: a function of the package every success exit of which leaves a
+		// non-empty tail or goes through loadLastFromPrev (`refillLastIfEmpty`)
+		refillHelper := func(h *ssa.Function) bool {
+			if h == nil || h.Blocks == nil || h.Pkg != fn.Pkg || h == fn {
+				return false
+			}
+			n := 0
+			for _, ret := range core.Returns(h) {
+				if core.ClassifyReturn(ret) == core.ExitFailure {
+					continue
+				}
+				n++
+				if c, ok := core.ResultValue(ret, h.Signature.Results().Len()-1).(*ssa.Call); ok && c.Common().StaticCallee() == llfp {
+					continue
+				}
+				if tailKnownNonEmpty(ret.Block()) {
+					continue
+				}
+				via := false
+				for _, c := range findCallsTo(h, llfp) {
+					if c.Block().Dominates(ret.Block()) && core.ErrLeadsToFailure(c) {
+						via = true
+					}
+				}
+				if !via {
+					return false
+				}
+			}
+			return n > 0
+		}
 		for i, rm := range removals {
 			bad := ""
 			for _, ret := range core.SuccessExits(fn) {
@@ -761,7 +839,7 @@ func c25Tail(r *core.Report, p *core.Prog, need map[string]*ssa.Function, lastF,
 					continue
 				}
 				// a success exit after the removal: either it returns loadLastFromPrev's result, or the tail is known non-empty
-				if c, ok := core.ResultValue(ret, fn.Signature.Results().Len()-1).(*ssa.Call); ok && c.Common().StaticCallee() == llfp {
+				if c, ok := core.ResultValue(ret, fn.Signature.Results().Len()-1).(*ssa.Call); ok && (c.Common().StaticCallee() == llfp || refillHelper(c.Common().StaticCallee())) {
 					continue
 				}
 				nonEmpty := false
@@ -780,6 +858,11 @@ func c25Tail(r *core.Report, p *core.Prog, need map[string]*ssa.Function, lastF,
 				viaCompaction := false
 				for _, c := range findCallsTo(fn, llfp) {
 					if core.Reaches(rm, c) && c.Block().Dominates(ret.Block()) {
+						viaCompaction = true
+					}
+				}
+				for _, cs := range core.CallsIn(fn, false, nil) {
+					if c, ok := cs.Instr.(*ssa.Call); ok && refillHelper(core.StaticCallee(c.Common())) && core.Reaches(rm, c) && c.Block().Dominates(ret.Block()) && core.ErrLeadsToFailure(c) {
 						viaCompaction = true
 					}
 				}
